@@ -72,8 +72,29 @@ func backSlice(v ssa.Value) *slice {
 		case *ssa.TypeAssert:
 			rec(y.X)
 		case *ssa.Extract:
+			// result i of a helper the reference tree does not have: what the helper returns there
+			if cl, ok := y.Tuple.(*ssa.Call); ok {
+				if h := cl.Call.StaticCallee(); h != nil && gNewFuncs[h] {
+					for _, ret := range returnsOf(h) {
+						if y.Index < len(ret.Results) {
+							rec(ret.Results[y.Index])
+						}
+					}
+					// precise: the arguments enter through the helper's parameters (bound below), not wholesale
+					s.vals[cl] = true
+					return
+				}
+			}
 			rec(y.Tuple)
 		case *ssa.Call:
+			if h := y.Call.StaticCallee(); h != nil && gNewFuncs[h] && h.Signature.Results().Len() == 1 {
+				for _, ret := range returnsOf(h) {
+					if len(ret.Results) == 1 {
+						rec(ret.Results[0])
+					}
+				}
+				return
+			}
 			if !y.Call.IsInvoke() {
 				if _, isFn := y.Call.Value.(*ssa.Function); !isFn {
 					rec(y.Call.Value)
@@ -392,6 +413,36 @@ func affine(v ssa.Value) (affineExpr, bool) {
 		return affine(x.X)
 	case *ssa.ChangeType:
 		return affine(x.X)
+	case *ssa.Extract:
+		// result of a helper the reference tree does not have: the one expression all its successful
+		// returns agree on (in terms of the helper's own values)
+		if cl, ok := x.Tuple.(*ssa.Call); ok {
+			if h := cl.Call.StaticCallee(); h != nil && gNewFuncs[h] {
+				var got *affineExpr
+				same := true
+				for _, ret := range returnsOf(h) {
+					if x.Index >= len(ret.Results) {
+						continue
+					}
+					if last := ret.Results[len(ret.Results)-1]; isErrorType(last.Type()) && !isNilErrorReturn(ret) {
+						continue // a failing return: the caller does not use the value
+					}
+					e, ok := affine(ret.Results[x.Index])
+					if !ok {
+						same = false
+						break
+					}
+					if got == nil {
+						got = &e
+					} else if !affineSame(*got, e) {
+						same = false
+					}
+				}
+				if got != nil && same {
+					return *got, true
+				}
+			}
+		}
 	case *ssa.BinOp:
 		if x.Op == token.ADD || x.Op == token.SUB {
 			a, ok1 := affine(x.X)
@@ -415,6 +466,23 @@ func affine(v ssa.Value) (affineExpr, bool) {
 		}
 	}
 	return affineExpr{coef: map[ssa.Value]int64{v: 1}}, true
+}
+
+func affineSame(a, b affineExpr) bool {
+	if a.k != b.k {
+		return false
+	}
+	for l, c := range a.coef {
+		if c != 0 && b.coef[l] != c {
+			return false
+		}
+	}
+	for l, c := range b.coef {
+		if c != 0 && a.coef[l] != c {
+			return false
+		}
+	}
+	return true
 }
 
 func constInt(k *ssa.Const) (int64, bool) {
